@@ -554,6 +554,7 @@ def run_check(pid, tier, jobs=None, only=None, keep=False):
             summary = dict(group=g.name, entry=g.entry, functions=g.functions, bounded=g.bounded, wall_s=round(r["wall"], 2),
                            solver_s=round(r.get("solver_s", 0.0), 2), status=r["status"], defs=r.get("defs"),
                            enforce=g.enforce, replace=g.replace, loop_contracts=g.loops, unwind=g.unwind,
+                           instrumentation=("goto-instrument --dfcc" if g.get("dfcc", True) else "goto-instrument --add-library [--apply-loop-contracts] (non-DFCC)"),
                            backend=g.solver or "sat(minisat)", note=g.note)
             if r["status"] == "undecided":
                 undecided.append((g, r["detail"]))
